@@ -20,6 +20,7 @@ Sim S;
 extern "C" {
 extern void (*verif_instr_hook)(int);
 int verif_command_giver_depth(void);
+extern char *last_verb;
 }
 
 // ------------------------------------------------------------------ sanitizer defaults
@@ -218,7 +219,7 @@ static void instr_hook(int instruction) {
 
 // ------------------------------------------------------------------ driver-entry state (observed, judged by the oracle in Python)
 struct EntryState {
-  long sp_off, csp_off; int co, cg, ci, po, cp; int ct; int cgd; int ecd; int es; int chb;
+  long sp_off, csp_off; int co, cg, ci, po, cp; int ct; int cgd; int ecd; int es; int chb; int lv;
   bool operator==(const EntryState &o) const { return !memcmp(this, &o, sizeof *this); }
 };
 static bool have_entry = false;
@@ -238,6 +239,7 @@ static EntryState snapshot() {
   if (d) { pop_context(&tmp); if (e.es) set_error_state(e.es); }
   e.ecd = d;
   e.chb = obstate(current_heart_beat);
+  e.lv = last_verb ? 1 : 0;       // the verb of the command being parsed: only set while an action runs
   return e;
 }
 
@@ -344,7 +346,7 @@ void invariants_at_cycle() {
   if (!have_entry) { sp0 = sp; csp0 = csp; }
   EntryState e = snapshot();
   if (!have_entry || !(e == entry_prev))
-    ev("entry sp=%ld csp=%ld cgd=%d ecd=%d es=%d co=%d cg=%d ci=%d po=%d cp=%d chb=%d", e.sp_off, e.csp_off, e.cgd, e.ecd, e.es, e.co, e.cg, e.ci, e.po, e.cp, e.chb);
+    ev("entry sp=%ld csp=%ld cgd=%d ecd=%d es=%d co=%d cg=%d ci=%d po=%d cp=%d chb=%d lv=%d", e.sp_off, e.csp_off, e.cgd, e.ecd, e.es, e.co, e.cg, e.ci, e.po, e.cp, e.chb, e.lv);
   entry_prev = e; have_entry = true;
 }
 
